@@ -114,10 +114,10 @@ let () =
           ents (k - 1) rest ({ e_name = comps nm; e_kind = kind; e_mode = n_of_int (int_of_string mode); e_mtime = n_of_int 0 } :: acc)
         | _ -> failwith "entries" in
       let es = ents (int_of_string n) toks [] in
-      (match extract_p (k = "E") (comps pre) (n_of_int (int_of_string umask)) (preserve = "1") es with
-       | Ok f -> Printf.printf "%s OK %s\n" id (show_fs f)
-       | Err (XAbsLink | XWriteThrough) -> Printf.printf "%s UNJUDGED\n" id
-       | Err e -> Printf.printf "%s %s\n" id (show_err e))
+      (match extract_partial (k = "E") (comps pre) (n_of_int (int_of_string umask)) (preserve = "1") es with
+       | (f, None) -> Printf.printf "%s OK %s\n" id (show_fs f)
+       | (_, Some (XAbsLink | XWriteThrough)) -> Printf.printf "%s UNJUDGED\n" id
+       | (f, Some e) -> Printf.printf "%s %s RES %s\n" id (show_err e) (show_fs f))
     | [id; "M"; fc; inn; pushed; layers] ->
       let s = copy_into (fc = "1") (inn = "1") (pairs pushed) (pairs layers) in
       let names = List.sort compare (List.map (fun (nm, d) -> Printf.sprintf "%s:%d" (hex_of_str nm) (int_of_nat d)) s.s_names) in
@@ -139,9 +139,16 @@ let () =
            | Ok _ -> Ok f
            | Err e -> Err e)
         | _ -> r in
+      let um = n_of_int (int_of_string umask) in
+      let residue =
+        if k = "U" then
+          unpack_residue h (fun a b -> a = b) (fun _ -> Some (tar_entries (comps pre) false t)) (fun _ -> Some tarb) um (preserve = "1") d blob
+        else if dok = "1" && sok = "1" then
+          fst (extract_partial false (comps pre) um (preserve = "1") (tar_entries (comps pre) false t))
+        else fs_init um in
       (match r with
-       | Ok _ -> Printf.printf "%s OK\n" id
+       | Ok _ -> Printf.printf "%s OK RES %s\n" id (show_fs residue)
        | Err (XAbsLink | XWriteThrough) -> Printf.printf "%s UNJUDGED\n" id
-       | Err _ -> Printf.printf "%s ERR\n" id)
+       | Err _ -> Printf.printf "%s ERR RES %s\n" id (show_fs residue))
     | [] -> ()
     | _ -> Printf.printf "BADLINE %s\n" l)
